@@ -56,6 +56,10 @@ fn check_bfs<D: Order + OutNeighbors + Clone>(d: &D, m: &Model, src: &[usize], o
     check_level_seq(o, "BfsDist", &vs, &lv);
     let bad = items.iter().find(|&&(v, w)| lv.get(&v) != Some(&w));
     o.check(bad.is_none(), "BfsDist:item-distance", || format!("item {:?}, reference hop distance {:?}", bad.unwrap(), lv.get(&bad.unwrap().0)));
+    if n <= 40 && src.len() % 2 == 1 && m.size() % 6 == 1 {
+        crate::obs::iter_consistency(o, "Bfs", || Bfs::new(d, src.iter().copied()));
+        crate::obs::iter_consistency(o, "BfsDist", || BfsDist::new(d, src.iter().copied()));
+    }
     let want: Vec<usize> = (0..n).map(|v| lv.get(&v).copied().unwrap_or(usize::MAX)).collect();
     o.eq("BfsDist::distances", &BfsDist::new(d, src.iter().copied()).distances(), &want);
 }
